@@ -195,6 +195,51 @@ def main(args):
         ck.count((info["draft"], repr(info["schema"]), repr(info["instance"]), info["class_from_$schema"], info["format_checker"]), nontrivial)
         if len(ck.samples) < 3 and rec["kind"] == "valid-schema" and any(e["ctx"] for e in rec["e1"]):
             ck.sample(info)
+    # reference scenarios with validator REUSE: after is_valid() on one instance, all entry points must still agree on the
+    # next instance (module validate() builds a fresh validator, the others run on the used one)
+    import copy
+    from harness import scen
+    _setup()
+    rid = 10 ** 7
+    for d in DRAFTS:
+        cls = _CLS[d]
+        for sc in scen.scenarios(d):
+            if sc["remote"] or sc["name"] == "dangling":
+                continue
+            for I1 in sc["instances"]:
+                for I2 in sc["instances"]:
+                    rid += 1
+                    v, res, h = scen.build(d, sc)
+                    try:
+                        v.is_valid(copy.deepcopy(I1))
+                        try:
+                            v.validate(copy.deepcopy(I1))
+                        except _JS.exceptions.ValidationError:
+                            pass
+                        I = copy.deepcopy(I2)
+
+                        def module_validate(inst, sc=sc, cls=cls):
+                            r = _JS.RefResolver.from_schema(copy.deepcopy(sc["schema"]), id_of=cls.ID_OF, store=copy.deepcopy(sc["store"]))
+                            return _JS.validate(inst, copy.deepcopy(sc["schema"]), cls=cls, resolver=r)
+                        e1 = list(v.iter_errors(I))
+                        rec = {"id": rid, "kind": "valid-schema", "iv1": v.is_valid(I), "iv2": v.is_valid(I),
+                               "e1": [errrec.obs_err(e) for e in e1], "e2": [errrec.obs_err(e) for e in v.iter_errors(I)],
+                               "vr": raised(lambda: v.validate(I)), "mr": raised(lambda: module_validate(I)),
+                               "mr2": raised(lambda: module_validate(I))}
+                        v2, _, _ = scen.build(d, sc)
+                        b = _JS.exceptions.best_match(v2.iter_errors(I))
+                        rec["bm"] = {"k": "none", "e": _null_err()} if b is None else {"k": "err", "e": errrec.obs_err(b)}
+                        for f in ("vr", "mr", "mr2"):
+                            rec[f].pop("what", None)
+                    except Exception as e:  # noqa
+                        ck.violation("raises_on_reused_validator", {"draft": d, "scenario": sc["name"], "first_instance": I1,
+                                                                   "second_instance": I2, "exception": "%s: %s" % (type(e).__name__, str(e)[:100])})
+                        continue
+                    recs.append(rec)
+                    real[rid] = {"draft": d, "scenario": sc["name"], "schema": sc["schema"], "history": "is_valid + validate on %r, then all entry points on the instance" % (I1,),
+                                 "instance": I2, "class_from_$schema": False, "format_checker": False}
+                    kinds["valid-schema"] += 1
+                    ck.count((d, sc["name"], repr(I1), repr(I2)), True)
     ck.notes["records_by_kind"] = kinds
     bad, states = tlc.validate_trace("trace/Trace_C04.tla", recs, "c04", shards=16)
     ck.states += states
